@@ -133,6 +133,18 @@ counts as one receive without `quit`.) -/
 theorem exit_listen_always_watches_quit :
     exitListenReceivesWithoutQuit = 0 ∧ 1 ≤ exitListenSelectsWithQuit := by decide
 
+/-- **Tie of the delivery-level model after the repair of D32**: the channel handed to `signal.Notify` is made once,
+outside every loop, with room for at least one of each subscribed signal (capacity ≥ 3; it is 16) — so a SIGTERM right
+after a SIGHUP is received (`signal_right_after_sighup_is_received`, `bursts_within_capacity_lose_nothing`). False
+before 5d789c0 (capacity 1, `Notify` inside the loop). -/
+theorem exit_listen_channel_has_room :
+    3 ≤ exitListenChanCap ∧ exitListenNotifyInLoop = false := by decide
+
+theorem sigterm_right_after_sighup_received_on_this_tree (last : Fabio.Model.C18Exit.Ev) (h : last ≠ .hup) :
+    Fabio.Model.C18Exit.runActs .reselects exitListenChanCap (Props.C18Exit.bursts [[.hup, last]]) =
+      (.ran (Fabio.Model.C18Exit.sigOf last), []) :=
+  Props.C18Exit.signal_right_after_sighup_is_received exitListenChanCap (by decide) last h
+
 /-- the contract the current tree's `exit.Listen` follows, as far as the AST tells -/
 def codeListenContract : Fabio.Model.C18Exit.ListenContract :=
   if exitListenReceivesWithoutQuit = 0 then .reselects else .signalsOnly
